@@ -230,7 +230,7 @@ func main() {
 		return
 	}
 	defer drv.Close()
-	run.Res.Rule = "schemas from gen.SchemaGen + custom directives + disjoint abstract types + list-shaped arguments; documents = gen.ValidDoc and the same document after 1-3 typed mutations; the real TypeInfo is read at every Enter of visitor.VisitWithTypeInfo and compared node by node with the top-down model; a second walk skips random nodes; non-trivial = >= 8 observed nodes, at least one with a non-nil input type or a non-nil parent type; distinct by (schema, document text)"
+	run.Res.Rule = "schemas from gen.SchemaGen + custom directives + disjoint abstract types + list-shaped arguments; documents = gen.ValidDoc and the same document after 1-3 typed mutations; the real TypeInfo is read at every Enter of visitor.VisitWithTypeInfo and compared node by node with the top-down model S and, as a row sequence, with the stack machine M (lean/GqlModel/TypeInfoStacks.lean); a second walk skips random nodes and is compared with M skipping the same nodes; at every Leave the getters must equal those at Enter and after the walk be nil; non-trivial = >= 8 observed nodes, at least one with a non-nil input type or a non-nil parent type; distinct by (schema, document text)"
 
 	one := func(c caseT) {
 		b, err := gq.Build(c.Schema, hooks)
